@@ -311,7 +311,10 @@ func checkC16(w *Worker) {
 		}
 	})
 	// --no-database behaves as an empty recipe book
-	noDbCmds := [][]string{{"reg"}, {"bal"}, {"report", "totals"}, {"report", "unresolved"}, {"bal", "-s", "cal"}, {"summary", "2001/02/03"}, {"csv", "database"}, {"csv", "database-resolved"}, {"report", "element-total", "cal"}}
+	// every command shape that reads the recipe book (stats opens its files itself; print, csv log and report quantity
+	// do not look at the book at all, but must not mind the flag either)
+	noDbCmds := shapeArgs(func(s cmdShape) bool { return !s.Lint && s.Args[0] != "summary" })
+	noDbCmds = append(noDbCmds, []string{"summary", "2001/02/03"}, []string{"report", "element-total", "cal"}, []string{"--today", "2001/02/10", "stats"})
 	w.Explore("no-database", ExploreOpts{ShardDepth: 3}, func(x *Exec) {
 		ci := x.Choose(len(noDbCmds), "input:command")
 		src := x.Choose(4, "input:database-source") // none (food.yaml exists), -d, HR_DATABASE, config
@@ -339,7 +342,17 @@ func checkC16(w *Worker) {
 		ra, re := runApp(act), runApp(exp)
 		x.Obs(ra.Key())
 		x.Case(fmt.Sprint(ci, src, missing), true)
-		if ra.Key() != re.Key() {
+		// (stats names the file it read: that line legitimately differs between --no-database and -d empty.yaml)
+		noFileLine := func(r AppRun) string {
+			var keep []string
+			for _, l := range strings.Split(r.Key(), "\n") {
+				if !strings.Contains(l, "Database file:") {
+					keep = append(keep, l)
+				}
+			}
+			return strings.Join(keep, "\n")
+		}
+		if noFileLine(ra) != noFileLine(re) || ra.Failed {
 			srcName := []string{"default food.yaml", "-d", "HR_DATABASE", "config DbFileName"}[src]
 			x.Violate("C16|no-database-not-empty-book|"+srcName, fmt.Sprintf("`%s` (database file %s: %s) prints:\n%s\nwith an empty recipe book `%s` prints:\n%s", act.shell(), dbName, []string{"present", "missing"}[missing], ra.String(), exp.shell(), re.String()),
 				map[string]interface{}{"cmd": act.shell(), "reference_cmd": exp.shell(), "observed": ra.String(), "expected": re.String()})
